@@ -388,7 +388,7 @@ static int   nt_;
 #define SLOT(arr, k, lim) ((k) >= 0 && (k) < (lim) && arr[k] != FAIL)
 #define NEED(c) if (!(c)) { rc = -1; goto out; }
 static uint8_t big[1 << 20];
-static char    extra[512];
+static char    extra[8192];
 
 static int sds_geom(int32 id, int32 *rank, int32 *dims, int32 *nt, long *ne)
 {
@@ -460,8 +460,8 @@ static int run_op(const char *op)
     OP("endbit") { long b = I(1); NEED(SLOT(bit, b, 4)); rc = Hendbitaccess(bit[b], 0) != FAIL; bit[b] = FAIL; }
     /* ---------------- Vgroup ---------------- */
     OP("vattach") { long g = I(1), f = I(2); NEED(g >= 0 && g < NA && vg[g] == FAIL && SLOT(fid, f, NF) && vstarted[f]); vg[g] = Vattach(fid[f], (int32)I(3), S_(4)); vgf[g] = (int)f; rc = vg[g] != FAIL; }
-    OP("vattachn") { long g = I(1), f = I(2); NEED(g >= 0 && g < NA && vg[g] == FAIL && SLOT(fid, f, NF) && vstarted[f]); int32 r = Vfind(fid[f], S_(3)); NEED(r > 0); vg[g] = Vattach(fid[f], r, S_(4)); vgf[g] = (int)f; rc = vg[g] != FAIL; }
-    OP("vdeleten") { long f = I(1); NEED(SLOT(fid, f, NF) && vstarted[f]); int32 r = Vfind(fid[f], S_(2)); NEED(r > 0); rc = Vdelete(fid[f], r) != FAIL; }
+    OP("vattachn") { long g = I(1), f = I(2); NEED(g >= 0 && g < NA && vg[g] == FAIL && SLOT(fid, f, NF) && vstarted[f]); int32 r = Vfind(fid[f], S_(3)); NEED(r > 0); vg[g] = Vattach(fid[f], r, S_(4)); vgf[g] = (int)f; rc = vg[g] != FAIL; sprintf(extra, " ref=%ld", (long)r); }
+    OP("vdeleten") { long f = I(1); NEED(SLOT(fid, f, NF) && vstarted[f]); int32 r = Vfind(fid[f], S_(2)); NEED(r > 0); rc = Vdelete(fid[f], r) != FAIL; sprintf(extra, " ref=%ld", (long)r); }
     OP("vdetach") { long g = I(1); NEED(SLOT(vg, g, NA)); rc = Vdetach(vg[g]) != FAIL; vg[g] = FAIL; }
     OP("vsetname") { long g = I(1); NEED(SLOT(vg, g, NA)); rc = Vsetname(vg[g], S_(2)) != FAIL; }
     OP("vsetclass") { long g = I(1); NEED(SLOT(vg, g, NA)); rc = Vsetclass(vg[g], S_(2)) != FAIL; }
@@ -478,8 +478,8 @@ static int run_op(const char *op)
     OP("vlone") { long f = I(1); NEED(SLOT(fid, f, NF) && vstarted[f]); int32 r[64]; int32 n = Vlone(fid[f], r, 64); rc = n != FAIL; sprintf(extra, " n=%ld", (long)n); }
     /* ---------------- Vdata ---------------- */
     OP("vsattach") { long s = I(1), f = I(2); NEED(s >= 0 && s < NA && vs[s] == FAIL && SLOT(fid, f, NF) && vstarted[f]); vs[s] = VSattach(fid[f], (int32)I(3), S_(4)); vsf[s] = (int)f; rc = vs[s] != FAIL; }
-    OP("vsattachn") { long s = I(1), f = I(2); NEED(s >= 0 && s < NA && vs[s] == FAIL && SLOT(fid, f, NF) && vstarted[f]); int32 r = VSfind(fid[f], S_(3)); NEED(r > 0); vs[s] = VSattach(fid[f], r, S_(4)); vsf[s] = (int)f; rc = vs[s] != FAIL; }
-    OP("vsdeleten") { long f = I(1); NEED(SLOT(fid, f, NF) && vstarted[f]); int32 r = VSfind(fid[f], S_(2)); NEED(r > 0); rc = VSdelete(fid[f], r) != FAIL; }
+    OP("vsattachn") { long s = I(1), f = I(2); NEED(s >= 0 && s < NA && vs[s] == FAIL && SLOT(fid, f, NF) && vstarted[f]); int32 r = VSfind(fid[f], S_(3)); NEED(r > 0); vs[s] = VSattach(fid[f], r, S_(4)); vsf[s] = (int)f; rc = vs[s] != FAIL; sprintf(extra, " ref=%ld", (long)r); }
+    OP("vsdeleten") { long f = I(1); NEED(SLOT(fid, f, NF) && vstarted[f]); int32 r = VSfind(fid[f], S_(2)); NEED(r > 0); rc = VSdelete(fid[f], r) != FAIL; sprintf(extra, " ref=%ld", (long)r); }
     OP("vsdetach") { long s = I(1); NEED(SLOT(vs, s, NA)); rc = VSdetach(vs[s]) != FAIL; vs[s] = FAIL; }
     OP("vsfdefine") { long s = I(1); NEED(SLOT(vs, s, NA)); rc = VSfdefine(vs[s], S_(2), NT(I(3)), (int32)I(4)) != FAIL; }
     OP("vssetfields") { long s = I(1); NEED(SLOT(vs, s, NA)); rc = VSsetfields(vs[s], S_(2)) != FAIL; }
@@ -615,6 +615,22 @@ static int run_op(const char *op)
     OP("snapshot") { rc = 2; }
     OP("check") { rc = 3; }
     OP("dump") { rc = 4; }
+    OP("ddlist") {   /* descriptor list, file length and stored version of file F (must be closed): the initial state of the model */
+        int32 f = Hopen(fname(I(1)), DFACC_READ, 0); rc = f != FAIL;
+        if (f != FAIL) {
+            uint16 tag = 0, ref = 0; int32 off = 0, len = 0; char *p = extra; uint32 a_ = 0, b_ = 0, c_ = 0; char vs_[LIBVSTR_LEN + 1];
+            filerec_t *fr = HAatom_object(f);
+            Hgetfileversion(f, &a_, &b_, &c_, vs_);
+            p += sprintf(p, " end=%ld ver=%u.%u.%u dds=", (long)fr->f_end_off, a_, b_, c_);
+            while (Hfind(f, DFTAG_WILDCARD, DFREF_WILDCARD, &tag, &ref, &off, &len, DF_FORWARD) != FAIL && p - extra < (long)sizeof extra - 64)
+            {
+                int16 sp = 0;   /* special code of the element (1 linked, 2 external, 3 compressed, 5 chunked...), 0 = plain */
+                if (SPECIALTAG(tag)) { uint8 hd[2] = {0, 0}; filerec_t *fr2 = HAatom_object(f); long here = ftell(fr2->file); FILE *raw = __real_fopen(fname(I(1)), "rb"); if (raw) { fseek(raw, off, SEEK_SET); if (fread(hd, 1, 2, raw) == 2) sp = (int16)((hd[0] << 8) | hd[1]); fclose(raw); } (void)here; if (sp == 0) sp = 1; }
+                p += sprintf(p, "%u:%u:%ld:%ld:%d,", (unsigned)(SPECIALTAG(tag) ? BASETAG(tag) : tag), (unsigned)ref, (long)off, (long)len, (int)sp);
+            }
+            Hclose(f);
+        }
+    }
     OP("rmfile") { rc = unlink(xname(I(1))) == 0; }
     OP("chmodro") { rc = chmod(S_(1), 0444) == 0; }
     OP("oldversion") {   /* patch the stored version element of file F: library version -> 4.0.0 (file must be closed) */
